@@ -10,6 +10,7 @@ from __future__ import annotations
 import hashlib
 
 from .. import env
+from ..gen import auth as _auth
 from ..ref import isa, sigmsg
 
 ID = 'C13'
@@ -181,6 +182,16 @@ def scenario(ctx, rng, j):
                 w = None
             if w is not None:
                 judge(f'{fam}:flag-not-permitted', [w, lock], fields, False)
+        # a witness is a script: one that holds no signature at all (its own
+        # definitions, cache entries, an early return) opens nothing, and in
+        # front of the builder's witness it changes nothing
+        if j % 4 == 0:
+            alone, prefixes = _auth.script_witnesses(rng)
+            for nm, w in alone:
+                judge(f'{fam}:script-witness:{nm}', [w, lock], fields, False)
+            for nm, w in prefixes:
+                judge(f'{fam}:script-prefix:{nm}',
+                      [w + bytes(mkwit(key_ok, f_hex)), lock], fields, True)
 
     # --- single-sig, both layouts
     l1 = t.make_single_sig_lock(pA, a_hex)
